@@ -442,6 +442,7 @@ class McmcSim:
                 self._kernel_law(rec, op, "shift")
                 return refprop.sliding(ids, rec.tuning_before, rec.s, rec.s2)
             if k == "DirichletOperator":
+                self._dirichlet_law(rec, op)
                 return refprop.dirichlet(ids, rec.tuning_before, rec.s, rec.s2)
             if k == "HMCOperator":
                 if rec.p0 is None or rec.p1 is None:
@@ -549,6 +550,58 @@ class McmcSim:
         if abs(log_ratio) > 1e-3:
             raise refprop.ProposalError("%s kernel: the density of the random %s is not the one its Hastings ratio presupposes: log density(reverse %s %.6g) - log density(forward %s %.6g) = %.4g, expected 0 "
                                         "(measured on the operator's own sampling map u -> move at tuning value %r)" % (what, "factor" if what == "scale" else "shift", what, target, what, m0, log_ratio, rec.tuning_before))
+
+    def _dirichlet_law(self, rec, op):
+        """The Hastings ratio of the Dirichlet operator is built from the densities of Dirichlet(c x)
+        and Dirichlet(c x'): it presupposes that x' is *drawn* from Dirichlet(c x).  Measured once per
+        operator and run on a stand-in (no model attached, own random stream, the run's stream is
+        put back afterwards): 3 000 proposals from the current point must have mean x_i and variance
+        x_i (1 - x_i) / (c + 1), within 6 standard errors / 25 %."""
+        import copy
+
+        import torch
+
+        n = self.law_checks.get(("dirichlet", id(op)), 0)
+        self.law_checks[("dirichlet", id(op))] = n + 1
+        if n != 0 or len(op.parameters) != 1 or type(op.parameters[0]).__name__ != "Parameter":
+            return
+        from checks.c11 import base_ids_of
+        from torchtree.core.parameter import Parameter
+
+        ids = base_ids_of(op.parameters[0])
+        if len(ids) != 1 or ids[0] not in rec.s:
+            return
+        x = rec.s[ids[0]].detach().clone().to(torch.float64)
+        if x.dim() != 1 or float(x.min()) < 1e-3:
+            return  # near the boundary the moments are dominated by a few draws
+        c = float(rec.tuning_before)
+        state = torch.get_rng_state()
+        try:
+            torch.manual_seed(hash64(self.sc["seed"], "dirichlet-law", rec.t) & 0x7FFFFFFF)
+            stand = copy.copy(op)
+            stand._scaler = c
+            N = 3000
+            draws = torch.empty((N, x.numel()), dtype=torch.float64)
+            for i in range(N):
+                stand.parameters = [Parameter(None, x.clone())]
+                stand._step()
+                draws[i] = stand.parameters[0].tensor.detach().to(torch.float64)
+        except Exception:  # noqa: BLE001
+            self.probe("dirichlet_law_abstained")
+            return
+        finally:
+            torch.set_rng_state(state)
+        self.probe("dirichlet_law_checked")
+        mean, var = draws.mean(0), draws.var(0)
+        var_true = x * (1 - x) / (c + 1.0)
+        z = ((mean - x).abs() / (var_true / N).sqrt()).max()
+        rel = ((var - var_true).abs() / var_true).max()
+        if c * float(x.min()) < 1.0:
+            rel = torch.tensor(0.0)  # J-shaped marginals: the sample variance of 3000 draws is too noisy to judge, the mean is not
+        if float(z) > 6.0 or float(rel) > 0.25:
+            raise refprop.ProposalError("Dirichlet kernel: 3000 proposals from x=%s with scaler %r have mean %s (%.1f standard errors off) and variance ratio up to %.2f of x(1-x)/(c+1): "
+                                        "they are not drawn from Dirichlet(c x), which the densities in the Hastings ratio presuppose" % (
+                                            [round(v, 4) for v in x.tolist()], c, [round(v, 4) for v in mean.tolist()], float(z), 1 + float(rel)))
 
     def _leapfrog_reference(self, rec, op):
         """K(r) - K(r') is the log ratio of reverse to forward proposal densities only if (x', -r')
